@@ -1,5 +1,5 @@
 """C13 - hittability and note timing follow the warp rules exactly (structural clauses)."""
-from ..rules import notes, records, timing, state
+from ..rules import notes, records, timing, state, baseline
 
 EXPLANATION = (
     "Static rule checking: R-REBUILD the fake built by time_notes copies every field of the note except the type; R-ENUM the "
@@ -49,6 +49,9 @@ def c5(ctx):
     state.shared_state(ctx, ["simfile.notes.timed:time_notes", "simfile.timing.engine:TimingEngine.__init__", "simfile.timing.engine:TimingEngine.hittable", "simfile.timing.engine:TimingEngine.time_at"], "timing a chart depends on the note data and timing data passed in, as they are at the call")
     timing.warp_union(ctx)
 
+def c_api(ctx):
+    baseline.surface(ctx, "C13: documented surface", modules=['simfile.timing.engine', 'simfile.notes.timed', 'simfile.timing'])
+
 CLAUSES = [
     ("C13.1", "the fake keeps everything but the type (R-REBUILD)", c1),
     ("C13.2", "dispatch on unhittable_notes (R-ENUM)", c2),
@@ -56,4 +59,5 @@ CLAUSES = [
     ("C13.4", "hittable looks at the whole beat; exception set", c4),
     ("C13.sweep", "package-wide census of record constructions and enum dispatches (thorough)", sweep),
     ("C13.6", "no process-wide state behind time_notes / the engine; warp segments act as their union (R-STATE, R-TABLE)", c5),
+    ("C13.api", "public surface: signatures and defaults, constants, enumerations, blank templates, base classes as confirmed (R-API)", c_api),
 ]
